@@ -82,6 +82,10 @@ def random_population(rng, max_devices=8):
                         rng.randint(1, 4))
     lnames = rng.sample(['Home', 'Living Room', 'Out back', 'Attic'],
                         rng.randint(1, 3))
+    if rng.random() < 0.25:
+        # a group and a location may share a name (and a light may be called
+        # like either): the three directories are separate
+        lnames[0] = gnames[0]
     pool = ['Top', 'Middle', 'Bottom', 'Chair Side', 'Table', 'Lamp', 'Strip',
             'Candle', 'Tube 2', 'lamp', 'Balcony', 'a.b', "it's", 'Zz top',
             'Desk #1', '_under']
@@ -213,6 +217,13 @@ class Gen:
         return ['bin', op, a, b]
 
     def cond(self, sc, depth=2):
+        if self.rng.random() < self.p.get('const_conds', 0.04):
+            # a condition known at compile time: a literal or a macro
+            ms = [n for n, (t, _) in self.macros.items() if t in ('int', 'num')]
+            self.tag('constant-condition')
+            if ms and self.rng.random() < 0.5:
+                return ['macro', self.rng.choice(ms)]
+            return ['num', self.rng.choice([0, 0, 1, 5])]
         r = self.rng.random()
         if r < self.p['choose_conds']:
             return self.new_choose()
@@ -466,7 +477,7 @@ class Gen:
                 continue
             if sc.in_matrix:
                 if k not in ('setreg', 'print', 'assign', 'if', 'repeat',
-                             'stage', 'break', 'black'):
+                             'stage', 'break', 'black', 'default'):
                     continue
             if k == 'stage' and not sc.in_matrix:
                 continue
@@ -484,7 +495,7 @@ class Gen:
                 continue
             if k == 'return' and not sc.in_routine:
                 continue
-            if k in ('units', 'time', 'time_at', 'wait', 'get', 'default') \
+            if k in ('units', 'time', 'time_at', 'wait', 'get') \
                     and sc.in_matrix:
                 continue
             table.append((k, wt))
@@ -512,7 +523,10 @@ class Gen:
         if self.mode == 'raw':
             if reg == 'duration':
                 e = ['num', self.rng.choice([0, 1, 500, 1500, 2500, 70000])]
-            elif self.rng.random() < 0.75:
+            elif reg == 'kelvin' or self.rng.random() < 0.75:
+                # (kelvin survives unit switches: it stays non-negative, the
+                # behaviour of a switch with registers outside their ranges is
+                # not specified)
                 e = ['num', self.rng.randrange(65536)]
             else:
                 e = self.int_expr(sc, 2)
@@ -759,6 +773,19 @@ class Gen:
         return self.rng.choice(cands or pool)
 
     def s_assign(self, sc, fresh=False):
+        # inside a routine: often the target is one of its own parameters
+        # (a private copy, wherever in the body the assignment stands)
+        mine = [(n, t) for n, t in sorted(getattr(sc, 'params', {}).items())
+                if n not in getattr(sc, 'protected', ())
+                and t in ('int', 'num')]
+        if sc.in_routine and mine and not fresh and \
+                self.rng.random() < self.p.get('assign_params', 0.3):
+            name, t = self.rng.choice(mine)
+            e = self.int_expr(sc, 2) if t == 'int' else self.num_expr(sc, 2)
+            self.tag('assign-to-param')
+            if sc.loop_depth:
+                self.tag('assign-to-param-in-loop')
+            return ['assign', name, e]
         r = self.rng.random()
         if r < 0.45:
             t, pool = 'int', INT_NAMES
